@@ -1,2 +1,56 @@
-/-! Driver for C27 (stub: not built yet). -/
-def main : IO Unit := pure ()
+import Drivers.Proto
+import PymocaVerif.Model.Merge
+/-! Driver for C27: builds each file's tree with `fileToTree` and merges the files in the
+    requested order with `mergeAll` / `mergeAllFromEmpty` (payloads are opaque strings). -/
+open Lean Drivers PymocaVerif.Merge
+
+/-- JSON `[{"n": name, "p": payload, "k": [...]}, …]` → `Forest String`. -/
+partial def parseForest (j : Json) : Except String (Forest String) := do
+  let a ← j.getArr?
+  let rec go (i : Nat) : Except String (Forest String) := do
+    if h : i < a.size then
+      let o := a[i]
+      let n ← getStr o "n"
+      let p ← getStr o "p"
+      let ks ← parseForest (← getObj o "k")
+      let r ← go (i + 1)
+      pure (.cons n p ks r)
+    else pure .nil
+  go 0
+
+def forestJson : Forest String → List Json
+  | .nil => []
+  | .cons n p ks r =>
+    Json.mkObj [("n", Json.str n), ("p", Json.str p), ("k", Json.arr (forestJson ks).toArray)] :: forestJson r
+
+def parseFile (ph : String) (j : Json) : Except String (Forest String) := do
+  let w ← (← getArr j "within").toList.mapM (·.getStr?)
+  let cs ← parseForest (← getObj j "classes")
+  pure (fileToTree ph w cs)
+
+def handle (req : Json) : Except String Json := do
+  let op ← getStr req "op"
+  let ph ← getStr req "ph"
+  match op with
+  | "merge.file" => do
+    let f ← parseFile ph (← getObj req "file")
+    pure (Json.mkObj [("ok", true), ("tree", Json.arr (forestJson f).toArray)])
+  | "merge.all" => do
+    let files ← (← getArr req "files").toList.mapM (parseFile ph)
+    let order ← (← getArr req "order").toList.mapM (·.getNat?)
+    let seq ← order.mapM fun i =>
+      match files[i]? with
+      | some f => pure f
+      | none => throw s!"bad file index {i}"
+    let mp : String → String → String ← match (← getStr req "variant") with
+      | "asis" => pure keepFirst
+      | "fixed" => pure (fill ph)
+      | o => throw s!"bad variant {o}"
+    let t ← match (← getStr req "start") with
+      | "first" => pure (mergeAll mp seq)
+      | "empty" => pure (mergeAllFromEmpty mp seq)
+      | o => throw s!"bad start {o}"
+    pure (Json.mkObj [("ok", true), ("tree", Json.arr (forestJson t).toArray)])
+  | o => throw s!"unknown-op {o}"
+
+def main : IO Unit := serve handle
